@@ -230,14 +230,14 @@ def lines(rng, tier):
     from harness.props import C18_outcome
     old = [(n, list(a)) for n, a in C18_outcome.graph_lines(rng, tier) + C18_outcome.lines(rng, tier)
            if n not in ("op", "tseitin", "php", "stone")]
-    out += rng.sample(old, min(len(old), 60 if tier == "quick" else 500))
+    out += rng.sample(old, min(len(old), 40 if tier == "quick" else 500))
     for base3 in (["6", "2", "2"], ["0", "1", "1"], ["5", "0", "2"], ["-1", "2", "2"], ["9", "3", "3"]):
         for ks in ([], ["2"], ["0"], ["2", "3"], ["3", "-1"], ["x"], ["1", "1", "1"]):
             out.append(("vdw", base3 + ks))
     out += [("vdw", []), ("vdw", ["4"]), ("vdw", ["4", "2"]), ("and", ["x", "1"]), ("or", ["2"]), ("true", ["1"]),
             ("and", ["-1", "2"]), ("or", ["3", "2", "-h"]), ("false", [])]
     base = list(out)
-    for name, argv in rng.sample(base, min(len(base), 150 if tier == "quick" else 1200)):
+    for name, argv in rng.sample(base, min(len(base), 100 if tier == "quick" else 1200)):
         for a in respell(rng, name, argv):
             out.append((name, a))
     return out
@@ -277,7 +277,7 @@ def cases(ctx):
         rest = []
         for name in sorted(by):
             xs = by[name]
-            cap = 14 if name in ("op", "tseitin", "php", "stone", "subsetcard") else 5
+            cap = 10 if name in ("op", "tseitin", "php", "stone", "subsetcard") else 5
             rest += xs if len(xs) <= cap else rng.sample(xs, cap)
     else:
         rest = rng.sample(rest, min(len(rest), 1500))
